@@ -1,0 +1,15 @@
+//go:build verif
+
+package redis
+
+import "sync/atomic"
+
+// VerifPointHook is called at every named schedule point when set
+// (verification hook H2). A controller may block inside it.
+var VerifPointHook atomic.Pointer[func(string)]
+
+func verifPoint(name string) {
+	if f := VerifPointHook.Load(); f != nil {
+		(*f)(name)
+	}
+}
